@@ -95,8 +95,9 @@ def while_invariant(inv, variant=None, havoc=None):
 
     def spec(interp, s, env):
         path = interp.path
+        ordinal = env.loop_ordinal
         for nm, g in inv(interp, env):
-            path.oblige("loop%d_inv_entry:%s" % (env.loop_ordinal, nm), g, where="line %d" % s.lineno, kind="inv")
+            path.oblige("loop%d_inv_entry:%s" % (ordinal, nm), g, where="line %d" % s.lineno, kind="inv")
         names = havoc(interp, env) if callable(havoc) else (havoc if havoc is not None else assigned_names(s.body))
         if callable(names):
             names = names(interp, env)
@@ -115,10 +116,10 @@ def while_invariant(inv, variant=None, havoc=None):
             except _Break:
                 return None  # leaves the loop with the current state (post must hold from here)
             for nm, g in inv(interp, env):
-                path.oblige("loop%d_inv_preserved:%s" % (env.loop_ordinal, nm), g, where="line %d" % s.lineno, kind="inv")
+                path.oblige("loop%d_inv_preserved:%s" % (ordinal, nm), g, where="line %d" % s.lineno, kind="inv")
             if variant:
                 v1 = variant(interp, env)
-                path.oblige("loop%d_variant_decreases" % env.loop_ordinal, z3.And(v0 >= 0, v1 < v0), kind="inv")
+                path.oblige("loop%d_variant_decreases" % ordinal, z3.And(v0 >= 0, v1 < v0), kind="inv")
             raise PathEnd("loop body verified (cut)")
         interp.exec_block(s.orelse, env)
         return None
